@@ -5,6 +5,7 @@ package badger
 import (
 	"fmt"
 	"sort"
+	"sync"
 
 	"github.com/dgraph-io/badger/v4/table"
 	"github.com/dgraph-io/badger/v4/y"
@@ -213,4 +214,28 @@ func VerifItemPtr(item *Item) (fid, offset uint32, ok bool) {
 	var vp valuePointer
 	vp.Decode(item.vptr)
 	return vp.Fid, vp.Offset, true
+}
+
+// Scan seam: valueLog.rewrite calls verifGCScanPoint(db, n) before it examines the n-th record
+// (1-based) of the file being collected. The harness installs a function that parks the rewrite
+// there, so that commits, flushes and compactions can be placed in the middle of the scan.
+var verifGCScanHook struct {
+	sync.Mutex
+	f func(db *DB, n int)
+}
+
+func verifGCScanPoint(db *DB, n int) {
+	verifGCScanHook.Lock()
+	f := verifGCScanHook.f
+	verifGCScanHook.Unlock()
+	if f != nil {
+		f(db, n)
+	}
+}
+
+// VerifSetGCScanHook installs (or, with nil, removes) the scan-seam function.
+func VerifSetGCScanHook(f func(db *DB, n int)) {
+	verifGCScanHook.Lock()
+	verifGCScanHook.f = f
+	verifGCScanHook.Unlock()
 }
